@@ -189,6 +189,16 @@ func (csf *ChecksumFile) readChunkAt(buf []byte, offset int64) (int, error) {
 			return 0, fmt.Errorf("checksumFile.readChunkAt: offset is not the start of a chunk")
 		}
 
+		// The first word of the file is not the magic number: either the file was written before
+		// checksums existed, or it is a checksummed file whose first magic number is damaged. A raw
+		// read is only correct in the first case. Tell them apart by the rest of the chunk header:
+		// if the next two words are the CRC and the length of the bytes that follow, this IS a
+		// chunk, and only its magic number is damaged.
+		if csf.looksLikeChunkAt(offset, len(buf)) {
+			return 0, fmt.Errorf("checksumFile.readChunkAt: damaged magic number at offset %v of file %v",
+				offset, csf.Fd.Name())
+		}
+
 		// It's not a checksum file, so read the data directly for backward compatibility.
 		return csf.Fd.ReadAt(buf, offset)
 	}
@@ -223,6 +233,25 @@ func (csf *ChecksumFile) readChunkAt(buf []byte, offset int64) (int, error) {
 	}
 
 	return numBytesRead, err
+}
+
+// Reports whether the bytes at offset are a complete chunk header (checksum, length) followed by
+// data matching that checksum; maxLen bounds the length we are willing to verify.
+func (csf *ChecksumFile) looksLikeChunkAt(offset int64, maxLen int) bool {
+	checksum, err := readUint32At(csf.Fd, offset+checksumOffset)
+	if err != nil {
+		return false
+	}
+	length, err := readUint32At(csf.Fd, offset+lengthOffset)
+	if err != nil || length == 0 || int64(length) > int64(maxLen) {
+		return false
+	}
+	data := make([]byte, length)
+	n, err := csf.Fd.ReadAt(data, offset+dataOffset)
+	if n != int(length) || (err != nil && err != io.EOF) {
+		return false
+	}
+	return crc32.ChecksumIEEE(data) == checksum
 }
 
 func readUint32At(fd *os.File, offset int64) (uint32, error) {
